@@ -198,6 +198,54 @@ func c08Judge(c *mon.Ctx, in *progInput) {
 	}
 }
 
+// c08JudgeSig runs the caller-data canary and the frame rule over signature
+// programs (the C06 generator): CHECKSIG / CHECKMULTISIG work on copies of the
+// transaction, and nothing of that may leak into the caller's objects.
+func c08JudgeSig(c *mon.Ctx, cs *c06Case) {
+	if cs.Idx < 0 || cs.Idx >= len(cs.Tx.Ins) {
+		return
+	}
+	c.Eval(1)
+	tx := cs.Tx.Build()
+	unlock0 := append([]byte{}, cs.Tx.Ins[cs.Idx].Unlock...)
+	lockBuf := append([]byte{}, cs.Lock...)
+	prev := &bt.Output{Satoshis: cs.Sats, LockingScript: bscript.NewFromBytes(lockBuf)}
+	before := tx.Bytes()
+	extUntouched := tx.ExtendedBytes()
+	exp := cs.Tx.Build()
+	exp.Inputs[cs.Idx].PreviousTxSatoshis = cs.Sats
+	exp.Inputs[cs.Idx].PreviousTxScript = bscript.NewFromBytes(append([]byte{}, cs.Lock...))
+	extRecorded := exp.ExtendedBytes()
+	in := &progInput{Unlock: unlock0, Lock: cs.Lock, Flags: cs.Flags, Src: "sigcase"}
+	dbg := &frameDebugger{c: c, in: in}
+	var libErr error
+	if !c.Try("interpreter.Engine.Execute", func() {
+		libErr = interpreter.NewEngine().Execute(interpreter.WithTx(tx, cs.Idx, prev), interpreter.WithFlags(scriptflag.Flag(cs.Flags)), interpreter.WithDebugger(dbg))
+	}) {
+		return
+	}
+	_ = libErr
+	e := era(cs.Flags)
+	c.Count("C08:canary-checks")
+	c.Count("C08:src:sigcase")
+	c.CountN("C08:frame-checks", dbg.checks)
+	if !bytes.Equal(tx.Bytes(), before) {
+		c.Violationf("C08:caller-data:tx-serialisation-modified:"+e, "tx.Bytes() changed by Execute of a signature program (%s)", cs.Desc)
+	}
+	if !bytes.Equal(lockBuf, cs.Lock) || prev.Satoshis != cs.Sats {
+		c.Violationf("C08:caller-data:previous-output-modified:"+e, "previous output changed by Execute of a signature program (%s)", cs.Desc)
+	}
+	if !bytes.Equal(*tx.Inputs[cs.Idx].UnlockingScript, unlock0) {
+		c.Violationf("C08:caller-data:unlocking-script-modified:"+e, "the checked input's unlocking script changed (%s)", cs.Desc)
+	}
+	if ext := tx.ExtendedBytes(); !bytes.Equal(ext, extRecorded) && !bytes.Equal(ext, extUntouched) {
+		c.Violationf("C08:caller-data:tx-extended-serialisation:"+e, "after Execute of a signature program tx.ExtendedBytes() is neither unchanged nor 'checked input records the spent output' (%s): got %x want %x", cs.Desc, ext, extRecorded)
+	}
+	if len(dbg.steps) >= 3 {
+		c.Distinct(prng.HashBytes(unlock0, cs.Lock, []byte{byte(cs.Flags), byte(cs.Flags >> 8), byte(cs.Idx)}))
+	}
+}
+
 type c08Prov struct {
 	name string
 	// build returns the instructions that leave one copy of x on top of the
@@ -268,13 +316,14 @@ var c08Operands = [][]byte{
 func init() {
 	p := &mon.Property{
 		ID: "C08",
-		Rule: "Matrix: 16 provenance patterns (push straight from the script, DUP, 2DUP, 3DUP, OVER, 2OVER, PICK, TUCK, IFDUP, both SPLIT halves, alt-stack round trips, ROT/SWAP/ROLL of a duplicate) x 32 value-changing transformers (INVERT, AND/OR/XOR, LSHIFT/RSHIFT by 1 and 9, BIN2NUM, NUM2BIN, 1ADD..0NOTEQUAL, ADD..MOD, CAT, SPLIT, MIN/MAX, hashes) x 12 operand encodings (minimal, non-minimal, negative zero, 4/8/9-byte) x both eras x {tx, scripts-only} x split point; plus the structured random programs, node vectors and their mutants of C05. " +
+		Rule: "Matrix: 16 provenance patterns (push straight from the script, DUP, 2DUP, 3DUP, OVER, 2OVER, PICK, TUCK, IFDUP, both SPLIT halves, alt-stack round trips, ROT/SWAP/ROLL of a duplicate) x 32 value-changing transformers (INVERT, AND/OR/XOR, LSHIFT/RSHIFT by 1 and 9, BIN2NUM, NUM2BIN, 1ADD..0NOTEQUAL, ADD..MOD, CAT, SPLIT, MIN/MAX, hashes) x 12 operand encodings (minimal, non-minimal, negative zero, 4/8/9-byte) x both eras x {tx, scripts-only} x split point; plus the structured random programs, node vectors and their mutants of C05, and signature programs (P2PK, P2PKH, two-check, m-of-n multisig with valid / invalid / malformed signatures and keys, code separators, all signature flag subsets) on generated multi-input transactions carrying previous-output information on every input. " +
 			"Per execution: caller-buffer canary (scripts, tx serialisation, previous output), frame rule on the library's own Before/AfterStep snapshots, lock-step with the reference model. " +
 			"distinct_nontrivial = distinct programs with >= 3 executed steps on which at least one frame-rule comparison was performed and all oracles agreed.",
 		Assum: []string{"footprint table (how many top items an opcode may touch) written from the opcode definitions; PICK/ROLL/CHECKMULTISIG are not judged by the frame rule (operand dependent) but by the lock-step comparison",
 			"the State snapshots handed to the debugger are deep copies (checked independently by C19)"},
 	}
 	judge := mon.Kind(p, "program", c08Judge)
+	sigJudge := mon.Kind(p, "sigcase", c08JudgeSig)
 	p.Run = func(c *mon.Ctx) {
 		if !validateModel(c) {
 			c.Fault("reference model failed validation against the node vectors")
@@ -310,6 +359,57 @@ func init() {
 					}
 				}
 			}
+		}
+		c.Phase("signature-programs")
+		NS := uint64(3000)
+		if c.Thorough {
+			NS = 100000
+		}
+		sigClasses := []string{"correct", "correct", "wrong-key", "wrong-digest", "empty", "high-s", "non-der", "weird-hashtype", "forkid-bit-mismatch"}
+		for i := uint64(0); i < NS; i++ {
+			if !c.Case(i) {
+				continue
+			}
+			r := c.Rand(i)
+			fl := sigFlagSubset(r.Intn(1 << len(sigFlagBits)))
+			if r.Chance(1, 2) {
+				fl = uint32(scriptflag.EnableSighashForkID | scriptflag.UTXOAfterGenesis)
+			}
+			fork := scriptflag.Flag(fl)&scriptflag.EnableSighashForkID != 0
+			sp := &c06Spec{SepPos: -1, SepKind: "plain", Flags: fl, Not: r.Chance(1, 3)}
+			if r.Chance(2, 3) {
+				sp.SepPos, sp.SepKind = r.Intn(6), prng.Pick(r, []string{"plain", "unexecuted-if", "executed-if"})
+			}
+			mkSlot := func(k int) c06Slot {
+				s := c06Slot{Key: k, Class: prng.Pick(r, sigClasses), HashType: c06HashType(r, fork)}
+				if s.Class == "forkid-bit-mismatch" {
+					s.HashType ^= 0x40
+				}
+				if s.Class == "weird-hashtype" {
+					s.HashType = (s.HashType & 0xc0) | 0x04
+				}
+				return s
+			}
+			if r.Chance(1, 2) {
+				sp.Kind, sp.N = "multisig", 1+r.Intn(4)
+				sp.M = 1 + r.Intn(sp.N)
+				for k := 0; k < sp.N; k++ {
+					sp.KeyEnc = append(sp.KeyEnc, prng.Pick(r, []string{"c", "c", "u", "h", "badprefix", "short"}))
+				}
+				for k := 0; k < sp.M; k++ {
+					sp.Slots = append(sp.Slots, mkSlot(k+r.Intn(sp.N-sp.M+1)))
+				}
+			} else {
+				sp.Kind, sp.N = prng.Pick(r, []string{"p2pk", "p2pkh", "two-checks"}), 2
+				sp.KeyEnc = []string{prng.Pick(r, []string{"c", "u", "h", "badprefix"}), "c"}
+				sp.Slots = []c06Slot{mkSlot(0)}
+				if sp.Kind == "two-checks" {
+					sp.Slots = []c06Slot{mkSlot(1), mkSlot(0)}
+				}
+			}
+			cs := c06Make(r, sp)
+			cs.Desc = fmt.Sprintf("%s m=%d n=%d sep=%d/%s slots=%+v keyenc=%v flags=%#x", sp.Kind, sp.M, sp.N, sp.SepPos, sp.SepKind, sp.Slots, sp.KeyEnc, sp.Flags)
+			sigJudge(c, cs)
 		}
 		c.Phase("vectors")
 		for i, v := range vs {
